@@ -7,6 +7,7 @@ package main
 import (
 	"fmt"
 	"math/big"
+	"sort"
 	"strings"
 
 	"github.com/youchainhq/go-youchain/params"
@@ -85,10 +86,20 @@ func (m *modelSession) ask(l string) string {
 
 func (m *modelSession) start(g *ledger) {
 	m.ask("RESET")
-	for id, b := range g.bal {
-		m.ask(fmt.Sprintf("ACC %d %s 0", id, b))
+	var ids, vids []int
+	for id := range g.bal {
+		ids = append(ids, id)
 	}
-	for _, v := range g.vals {
+	sort.Ints(ids)
+	for _, id := range ids {
+		m.ask(fmt.Sprintf("ACC %d %s 0", id, g.bal[id]))
+	}
+	for id := range g.vals {
+		vids = append(vids, id)
+	}
+	sort.Ints(vids)
+	for _, id := range vids {
+		v := g.vals[id]
 		m.ask(fmt.Sprintf("GVAL %d %d %d %d %d %s", v.id, v.operator, v.coinbase, v.role, v.status, v.token))
 	}
 }
@@ -173,6 +184,9 @@ func checkRun(rr *runResult, drv *vh.Driver) []finding {
 		// ---------------- model: replay the block's operation list ----------------
 		modelLost, modelLostDel := new(big.Int), new(big.Int)
 		modelKnows := false
+		if b.led == nil && rr.unbuildable {
+			break // the builder's state recorded an error in this block: not judged (see exec.go)
+		}
 		if modelAlive {
 			ms.ask(fmt.Sprintf("BEGIN %d %d", b.num, b.gasLimit))
 			for ti := range b.txs {
@@ -278,7 +292,11 @@ func checkRun(rr *runResult, drv *vh.Driver) []finding {
 				if modelKnows {
 					exp := new(big.Int).Sub(new(big.Int).Sub(explainedMint, modelLost), modelLostDel)
 					okF := modelLost.Sign() == 0 || (forcedOK && forcedBound(prev, b, new(big.Int).Neg(modelLost)))
-					okD := modelLostDel.Sign() == 0 || (b.periodEnd && modelLostDel.Cmp(delBound) < 0)
+					// removed validator: either the dust left by the settlement preceding its withdrawal (< its stake), or - when
+					// distributeRewards had marked it force-settled without paying (the stale object held no rewards) so that
+					// processPendingTxs skipped the settlement - at most what was distributable in this block
+					okD := modelLostDel.Sign() == 0 || (b.periodEnd && (modelLostDel.Cmp(delBound) < 0 ||
+						(removedForced(prev, b.led, forcedCandidates(prev, b.num, w.yp)) && forcedBound(prev, b, new(big.Int).Neg(modelLostDel)))))
 					if exp.Cmp(delta) == 0 && okF && okD && modelLost.Sign() >= 0 && modelLostDel.Sign() >= 0 {
 						if explainedMint.Sign() > 0 {
 							matchers = append(matchers, mRefund)
@@ -306,7 +324,7 @@ func checkRun(rr *runResult, drv *vh.Driver) []finding {
 					}
 				}
 			}
-			what := fmt.Sprintf("block %d: total changed by %s LU (before: %s; after: %s; burnt %s)", b.num, delta, prevParts, cur, b.burnt)
+			what := fmt.Sprintf("block %d: total changed by %s LU (before: %s; after: %s; burnt %s; refund-minted %s; model diagnostics: stale-settlement loss %s, removed-validator loss %s, forced candidates %v)", b.num, delta, prevParts, cur, b.burnt, explainedMint, modelLost, modelLostDel, forcedCandidates(prev, b.num, w.yp))
 			if len(matchers) == 0 {
 				add(finding{"oracle", "conservation", b.num, what, ""})
 			}
@@ -403,6 +421,18 @@ func noOnline(l *ledger) bool {
 		}
 	}
 	return true
+}
+
+// removedForced: some validator that disappeared in this block was a forced-settlement candidate
+func removedForced(prev, cur *ledger, cands []int) bool {
+	for _, id := range cands {
+		if _, was := prev.vals[id]; was {
+			if _, is := cur.vals[id]; !is {
+				return true
+			}
+		}
+	}
+	return false
 }
 
 func balOr0(l *ledger, id int) *big.Int {
